@@ -1,13 +1,13 @@
 SPECIFICATION Spec
 CONSTANTS
-  Outs <- O2
+  Outs <- O1
   MaxBlocks = 3
   MaxHeight = 3
   TrimDepth = 2
-  MaxSteps = 14
-  WithCrash = TRUE
+  MaxSteps = 13
+  WithCrash = FALSE
   CrashInHeadWindow = FALSE
   SpendTrimCandidate = TRUE
 VIEW view
-INVARIANTS TypeOK ReorgEqualsFreshReplay CommitmentEqualsContent Recoverable SpentAtMostOnce
+INVARIANTS CommitmentEqualsContent
 CHECK_DEADLOCK FALSE
